@@ -67,8 +67,14 @@ def wrapper_case(which, lib, via_str):
             return Opaque('RESULT', 'final-result')
 
         def stub_other(it, ci, a, d, rec):
+            # a wrapper that goes through another route than the one documented (e.g. reads the file itself and calls the
+            # string entry): recorded, answered like the expected callee, reported by check()
             rec.calls.append((ci.name, list(a)))
-            raise Inconclusive('unexpected callee %s' % ci.path)
+            if ci.name.startswith('preprocess'):
+                if it.decide(z3.Bool('pp_ok'), 'pp_ok'):
+                    return ok(Tup([Opaque('PT', 'pt-token'), Opaque('DEFS', 'defs-token')]))
+                return err(Opaque('ERR', 'pp-error'))
+            return Opaque('RESULT', 'final-result')
 
         def check(it, r, rec, s):
             notes = []
